@@ -164,6 +164,9 @@ def c06(prop, tier):
     small = cfg_small('kv', ['a', 'b'] if tier == 'quick' else ['a', 'b', 'c'], 3, 1)
     res = run_core(ck, prop, 'kv', tier, small=small, extra={'load_sync': True}, **sizes(tier))
     ck.extra['load_then_sync'] = res.get('stats', {}).get('load_then_sync', 0)
+    # "at every moment": the index update itself, with concurrent writers of one key and a batch (spec/IndexRace.tla)
+    import sched_family
+    sched_family.run_indexrace(ck, prop, tier)
     return ck.finish()
 
 
